@@ -12,6 +12,7 @@
 -/
 import Proofs.GoTieLazy
 import Proofs.GoTieCliDecrypt
+import Proofs.GoTieCliEncrypt
 namespace AgeModel
 namespace Tie.C15
 open Extracted
@@ -70,6 +71,33 @@ theorem cli_decrypt_refused {δ ι : Type} (NR : Bytes → Go.M Bytes) (D : Byte
     main_decrypt NR D (fun _ _ => .error (.panic 77)) (fun _ _ => .error (.panic 78)) ids inp out =
       .error (.panic (if GoTie.mangled inp = true then 1000 else 1001)) :=
   GoTie.cli_decrypt_refused NR D ids inp out in' hin r e hD
+
+/-! `encrypt` of cmd/age/age.go, translated on every run with everything outside it as one explicit state
+(output, armor writer and stream writer are handles into it) and `errorf` as an exit site. The armor
+writer's `Close` — deferred in the source INSIDE `if withArmor` — runs at the end exactly when that branch was
+taken. `encrypt` returns, and only then can `age -e` exit 0, exactly when `age.Encrypt`, the copy of the whole
+input, the stream writer's `Close` and, last, the armor writer's `Close` all reported success; every failure is
+an exit with status 1 after which nothing more is written. -/
+
+theorem cli_encrypt_tie {ζ ρ τ : Type} (nilZ : ζ) (NW : ζ → τ → Go.M (ζ × τ))
+    (Enc : ζ → List ρ → τ → Go.M (ζ × Option Go.Err × τ)) (Cp : ζ → Bytes → τ → Go.M (Int × Option Go.Err × τ))
+    (Cl : ζ → τ → Go.M (Option Go.Err × τ)) (recs : List ρ) (inp : Bytes) (out : ζ) (armor : Bool) (t0 : τ) :
+    main_encrypt nilZ NW Enc Cp Cl recs inp out armor t0 =
+      if armor = true then (do
+        let r ← NW out t0
+        GoTie.encryptTail Enc Cp Cl recs inp r.1 (some r.1) r.2)
+      else GoTie.encryptTail Enc Cp Cl recs inp out none t0 :=
+  GoTie.cli_encrypt_tie nilZ NW Enc Cp Cl recs inp out armor t0
+
+theorem cli_encrypt_returns_iff {ζ ρ τ : Type} (nilZ : ζ) (NW : ζ → τ → Go.M (ζ × τ))
+    (Enc : ζ → List ρ → τ → Go.M (ζ × Option Go.Err × τ)) (Cp : ζ → Bytes → τ → Go.M (Int × Option Go.Err × τ))
+    (Cl : ζ → τ → Go.M (Option Go.Err × τ)) (recs : List ρ) (inp : Bytes) (out : ζ) (armor : Bool) (t0 t' : τ) :
+    main_encrypt nilZ NW Enc Cp Cl recs inp out armor t0 = .ok t' ↔
+      ∃ dst t1, (if armor = true then NW out t0 = .ok (dst, t1) else dst = out ∧ t1 = t0) ∧
+        ∃ w t2 n t3 t4, Enc dst recs t1 = .ok (w, none, t2) ∧ Cp w inp t2 = .ok (n, none, t3) ∧
+          Cl w t3 = .ok (none, t4) ∧
+          if armor = true then Cl dst t4 = .ok (none, t') else t' = t4 :=
+  GoTie.cli_encrypt_returns_iff nilZ NW Enc Cp Cl recs inp out armor t0 t'
 
 end Tie.C15
 end AgeModel
